@@ -190,6 +190,8 @@ pub struct Env {
     pub epoch: u64,
     /// free mode: answers of "*" middleware entries come from here
     pub rng: Mutex<u64>,
+    /// signals of the harness-only ops signal / wait, also raised and awaited by a "G" reducer
+    pub signals: Arc<(Mutex<std::collections::HashSet<String>>, std::sync::Condvar)>,
 }
 
 impl Env {
@@ -200,6 +202,7 @@ impl Env {
             prefix: prefix.to_string(),
             epoch: sched().epoch(),
             rng: Mutex::new(seed | 1),
+            signals: Arc::new((Mutex::new(Default::default()), std::sync::Condvar::new())),
         })
     }
     fn rd(&self) -> Value {
@@ -322,6 +325,16 @@ impl Reducer<St, Act> for SReducer {
                 }
                 c.1.push(json!({"k": entry.eff.k, "a": entry.eff.a}));
             });
+        }
+        if entry.op == "G" {
+            // held up by something outside the store: say so, then wait to be let go
+            let (m, cv) = &*self.env.signals;
+            let mut g = m.lock().unwrap();
+            g.insert("in".to_string());
+            cv.notify_all();
+            while !g.contains("go") {
+                g = cv.wait(g).unwrap();
+            }
         }
         if entry.op == "K" {
             DispatchOp::Keep(ns, eff)
@@ -594,7 +607,7 @@ pub struct Shared {
     pub store: Arc<TStore>,
     pub subscriptions: Mutex<HashMap<String, Arc<Mutex<Box<dyn Subscription>>>>>,
     pub iters: Mutex<HashMap<String, BoxIter>>,
-    pub signals: (Mutex<std::collections::HashSet<String>>, std::sync::Condvar),
+    pub signals: Arc<(Mutex<std::collections::HashSet<String>>, std::sync::Condvar)>,
     /// subscriber objects registered in more than one store (two-store runs)
     pub shared_subs: Arc<Mutex<HashMap<String, Arc<SSubscriber>>>>,
     /// the other stores of the run, by key (two-store runs)
@@ -603,12 +616,13 @@ pub struct Shared {
 
 impl Shared {
     pub fn new(env: Arc<Env>, store: Arc<TStore>) -> Arc<Shared> {
+        let signals = env.signals.clone();
         Arc::new(Shared {
             env,
             store,
             subscriptions: Mutex::new(HashMap::new()),
             iters: Mutex::new(HashMap::new()),
-            signals: (Mutex::new(Default::default()), std::sync::Condvar::new()),
+            signals,
             shared_subs: Arc::new(Mutex::new(HashMap::new())),
             peers: Mutex::new(HashMap::new()),
         })
